@@ -65,7 +65,7 @@ fn build(s: &Spec) -> Case {
         // clientbound frames: 0 session cookie request, 1 encryption request, 2 login success, 3 first keep-alive
         case.transport.writes.push(WriteDev { frame: 3, prog: vec![WStep::Accept(first), WStep::Until(until)] });
     }
-    case.horizon_ms = 400_000;
+    case.horizon_ms = 400_000.max(s.lat.iter().sum::<u64>() + s.ci_after + 100_000);
     if let Some(m) = &s.timeout_msg {
         for (lang, table) in case.adapters.loc_messages.iter_mut() {
             if lang == "en" {
@@ -264,6 +264,11 @@ fn specs(thorough: bool) -> Vec<Spec> {
                 v.push(Spec { lat, ci_after: 0, echo: e.into(), unsolicited_every: None, auth_ms: 0, locale: "en_us".into(), ka_write_stall: None, dc_write_stall: Some((first, until)), timeout_msg: None });
             }
         }
+    }
+    // a player who waits for a very long time (routing takes a day and a half: 8 000 Keep Alives), echoing promptly
+    // or with a delay, and one who stops echoing after the first 4 000
+    for (lat, e) in [([130_000_000u64, 0, 0], "prompt"), ([0, 130_000_000, 0], "delay-15000"), ([130_000_000, 0, 0], "prompt-first-4000")] {
+        v.push(Spec { lat, ci_after: 0, echo: e.into(), unsolicited_every: None, auth_ms: 0, locale: "en_us".into(), ka_write_stall: None, dc_write_stall: None, timeout_msg: None });
     }
     // what the operator may have written as the timeout message: plain text of any shape, or a JSON object
     for m in ["[Passage] timed out", "\"quoted\" text", "42", "true", "null", " leading blank", "[1, 2", "}{", "Zeit\u{fc}berschreitung \u{1f600}", "{\"text\":\"t\",\"extra\":[{\"text\":\"x\",\"color\":\"red\"}]}", ""] {
